@@ -4,6 +4,7 @@ import (
 	"os"
 	"sort"
 	"strconv"
+	"strings"
 
 	"github.com/frankkopp/FrankyGo/verifsim/rules"
 )
@@ -71,6 +72,24 @@ func genGames(rng *PRNG, n, maxPlies, branch int) [][]string {
 	return games
 }
 
+// cornerBookGames: game prefixes from the initial position after which a
+// particular move is illegal for a reason that a short-cut legality test
+// tends to forget (validated with the rules model when used).
+var cornerBookGames = []struct{ prefix, illegal string }{
+	// en passant capture that removes both pawns from the rank between king and queen
+	{"e2e4 c7c6 e4e5 d8a5 e1e2 a7a6 e2e3 b7b6 e3f4 g7g6 f4g5 d7d5", "e5d6"},
+	{"c2c3 e7e5 d1a4 e5e4 a2a3 e8e7 b2b3 e7e6 g2g3 e6f5 c1b2 f5g4 d2d4", "e4d3"},
+	// castling through an attacked square / out of check / into check
+	{"e2e4 b7b6 g2g3 c8a6 f1g2 e7e6 g1f3 d7d6", "e1g1"},
+	{"e2e4 e7e5 g1f3 d7d6 f1c4 c8g4 d2d3 g4f3 g2f3 d8g5 c1e3 g5g2", "e1g1"},
+	{"g1f3 c7c6 g2g3 d7d5 f1g2 g8f6 d2d4 d8a5", "e1g1"},
+	// pinned piece moving off the line
+	{"e2e4 e7e6 d2d4 d7d5 b1c3 f8b4", "c3d5"},
+	// king stepping next to the other king / onto a square attacked through itself
+	{"e2e4 e7e5 e1e2 e8e7 e2e3 e7e6 e3f3 e6f6 f3g4 f6g6 h2h4 h7h5", "g4g5"},
+	{"e2e4 d7d5 e4d5 d8d5 b1c3 d5e5", "e1e2"},
+}
+
 var badTokens = []string{"e2e5", "a1a1", "h7h5", "e1e8", "b1c4", "d2d5"}
 
 // GenBook generates a book build scenario (C19).
@@ -90,9 +109,32 @@ func GenBook(seed uint64) *Scenario {
 			for i := 0; i < at; i++ {
 				_ = p.Play(g[i])
 			}
+			if ill := p.PseudoIllegalMoves(); len(ill) > 0 && rng.Chance(0.6) {
+				// a move that obeys the piece's movement rule but leaves the king in check
+				tok = ill[rng.Intn(len(ill))].String()
+			}
 			if !p.IsLegal(tok) {
 				bs.Bad = append(bs.Bad, BadMove{Game: gi, At: at, Token: tok})
 			}
+		}
+	}
+	if rng.Intn(100) < 15 {
+		// a game that reaches one of the classic corners of the legality rules
+		// and continues with the move that is illegal exactly there
+		cg := cornerBookGames[rng.Intn(len(cornerBookGames))]
+		pre := strings.Fields(cg.prefix)
+		p := rules.MustFen(rules.StartFen)
+		okc := true
+		for _, m := range pre {
+			if p.Play(m) != nil {
+				okc = false
+				break
+			}
+		}
+		if okc && !p.IsLegal(cg.illegal) {
+			g := append(append([]string{}, pre...), Playout(p, rng.Intn(4), rng)...)
+			bs.Games = append(bs.Games, g)
+			bs.Bad = append(bs.Bad, BadMove{Game: len(bs.Games) - 1, At: len(pre), Token: cg.illegal})
 		}
 	}
 	ns := rng.Range(2, 4)
